@@ -635,6 +635,43 @@ pub fn run(ctx: &Ctx) -> i32 {
         println!("HARNESS-FAILURE property=C05 environment program does not build: {:?}", o.brief());
         return 2;
     }
+    // symbols directly after a build on the same thread that defined the same names with other values and
+    // ended because the evaluation budget of the whole build ran out (the last history program)
+    {
+        type Want = fn(&Env) -> i64;
+        let texts: Vec<(&str, Want)> = vec![
+            ("EQ_CHAIN", |e| e["eq_chain"]),
+            ("eq_chain + 0", |e| e["eq_chain"]),
+            ("EqA + eq_b", |e| e["eqa"] + e["eq_b"]),
+            ("Eq_Fwd", |e| e["eq_fwd"]),
+            ("eqBig", |e| e["eqbig"]),
+            ("zero_ish + Xval", |e| e["zero_ish"] + e["xval"]),
+            ("yes", |e| e["yes"]),
+            ("lowest", |e| e["lowest"]),
+            ("2 * EQ_CHAIN - EQ_CHAIN", |e| e["eq_chain"]),
+            ("low(EQ_CHAIN)", |e| e["eq_chain"] & 0xff),
+            ("SetV + EQ_CHAIN", |e| e["setv"] + e["eq_chain"]),
+            ("Xval", |e| e["xval"]),
+        ];
+        let n = texts.len() as u64 * ctx.tier.pick(1u64, 4u64);
+        fw::par_for(n, 1, |i| {
+            let mut rng = Rng::for_case(ctx.seed, 0xC05_B, i);
+            let envir = environment(&mut rng);
+            let (text, want) = texts[i as usize % texts.len()];
+            let want = want(&envir.env);
+            fw::run_history_program(fw::history_programs().len() - 1);
+            let (out, v) = observe(&envir, text);
+            ctx.eval(1);
+            ctx.count("symbols_after_an_exhausted_build", 1);
+            if v != Some(want) {
+                ctx.violation(
+                    "expr/symbols/after-a-build-that-ran-out-of-evaluation-budget",
+                    format!("`{}` should be {} here, observed {:?} ({})", text, want, v, fw::clip(&format!("{:?}", out.brief()), 100)),
+                    json!({"source": program(&envir, &[text]), "after_exhausted_build": true, "want": want, "pc_base": envir.pc_base}),
+                );
+            }
+        });
+    }
     let grid = grid_cases(&envir);
     let pairs = pair_cases(&envir);
     ctx.put("grid_cases", json!(grid.len()));
@@ -726,6 +763,22 @@ fn count_ops(e: &E, m: &mut std::collections::BTreeMap<String, u64>) {
 }
 
 pub fn replay(ctx: &Ctx, case: &Value) -> i32 {
+    if case["after_exhausted_build"].as_bool() == Some(true) {
+        fw::run_history_program(fw::history_programs().len() - 1);
+        let out = fw::build_str(case["source"].as_str().unwrap_or(""));
+        ctx.eval(1);
+        ctx.distinct(1);
+        ctx.distinct(2);
+        let off = case["pc_base"].as_u64().unwrap_or(0) as usize * 2;
+        let v = match &out {
+            Outcome::Ok(b) => b.code.get(off..off + 8).map(|b| i64::from_le_bytes(b.try_into().unwrap())),
+            _ => None,
+        };
+        if v != case["want"].as_i64() {
+            ctx.violation("expr/symbols/after-a-build-that-ran-out-of-evaluation-budget/replay", "still deviates", case.clone());
+        }
+        return fw::finish(ctx, "replay", &[]);
+    }
     if case["as_condition"].as_bool() == Some(true) {
         let out = fw::build_str(case["source"].as_str().unwrap_or(""));
         ctx.eval(1);
